@@ -7,7 +7,7 @@ CONSTANTS Classes = {1, 2, 3}
   Ptrs = {1}
   Vals = {1}
   SetVals <- NoSet
-  OutModes <- OutOnly
+  OutModes <- NoOutParam
   MaxSteps = 0
   GenDepth = 0
   FlagScripts <- FSLayout
